@@ -1,10 +1,14 @@
+pub mod c09;
 pub mod hmodel;
+pub mod netscn;
 
 use crate::check::Check;
 
 pub fn all() -> Vec<Box<dyn Check>> {
     let mut v: Vec<Box<dyn Check>> = Vec::new();
     v.extend(hmodel::checks());
+    v.push(Box::new(c09::C09));
+    v.extend(netscn::checks());
     v
 }
 
